@@ -1093,6 +1093,28 @@ def main():
         parts.append('Definition throttle_sites : list (string * list string * list string) :=\n  [' +
                      ';\n   '.join(f'({q(f)}, [{"; ".join(q(c) for c in cs)}], [{"; ".join(q(c) for c in ca)}])' for f, cs, ca in sites) + '].\n')
 
+    def do_gates(cls, method, src):
+        """the chain of checks at the top of a packet-processing function: for every top-level `if`, in order: the text of its
+        condition, the ERRCODE_* constants in its body and whether the body returns"""
+        m = None
+        for doc in tr.ast(f'{cls}::{method}', ['rs_driver/api/lidar_driver.hpp']):
+            if doc['kind'] == 'CXXMethodDecl' and doc.get('name') == method and any(x['kind'] == 'CompoundStmt' for x in doc.get('inner', [])):
+                m = doc
+        if m is None:
+            raise Unsupported(f'{cls}::{method} not found')
+        lr = LoopRound(tr, m, '', os.path.join(repo, 'src', src), [])
+        body = [c for c in m['inner'] if c['kind'] == 'CompoundStmt'][0]
+        rows = []
+        for st in body.get('inner', []):
+            if st.get('kind') == 'IfStmt':
+                rows.append((lr.text_of(st['inner'][0]), sorted(set(lr.codes_in(st['inner'][1]))), lr.has(st['inner'][1], ('ReturnStmt',))))
+        q = lambda t: '"' + t.replace('"', '""') + '"%string'
+        parts.append(f'(* ---- the checks at the top of {cls}::{method}, in order ---- *)\n')
+        parts.append(f'Definition {cls}_{coq_ident(method)}_gates : list (string * list string * bool) :=\n  [' +
+                     ';\n   '.join(f'({q(c)}, [{"; ".join(q(x) for x in cs)}], {"true" if r else "false"})' for c, cs, r in rows) + '].\n')
+
+    jobs += [('gates_msop', lambda: do_gates('Decoder', 'processMsopPkt', 'rs_driver/driver/decoder/decoder.hpp')),
+             ('gates_difop', lambda: do_gates('Decoder', 'processDifopPkt', 'rs_driver/driver/decoder/decoder.hpp'))]
     jobs += [('throttle_sites', lambda: do_throttle_sites([('Decoder', 'processMsopPkt'), ('Decoder', 'processDifopPkt'),
                                                            ('LidarDriverImpl', 'getPointCloud'), ('LidarDriverImpl', 'packetPut')]))]
     I = 'rs_driver/driver/input/'
